@@ -217,7 +217,8 @@ def build(u):
                                        ("reset_limit", "limit", "final(self).limit is None", "impl SelectStatement"),
                                        ("reset_offset", "offset", "final(self).offset is None", "impl SelectStatement"),
                                        ("clear_order_by", "orders", "final(self).orders@.len() == 0", "impl OrderedStatement for SelectStatement")]:
-                u.fn(f, blk, fn, props=P, rules=[r_retself, make_r_sub("R-inherent", r"^(\s*)pub fn", r"\1fn", flags=re.M, min_count=0)], key="SelectStatement::" + fn, vpath="SelectStatement::" + fn,
+                # removing a clause must not take ANOTHER clause (or its values) with it: carried by C08 / C01 as well
+                u.fn(f, blk, fn, props=P + ["C08", "C01"], rules=[r_retself, make_r_sub("R-inherent", r"^(\s*)pub fn", r"\1fn", flags=re.M, min_count=0)], key="SelectStatement::" + fn, vpath="SelectStatement::" + fn,
                      spec="ensures\n    // removes exactly that clause\n    %s,\n    // and nothing else (frame over every other field of the GENERATED field list)\n    %s," % (post, frame(fld)))
         u.emit("}\n")
     # clear_order_by of the other ordered statements: removes exactly the ordering (whole-struct frame over the GENERATED field list)
@@ -230,7 +231,7 @@ def build(u):
             fl = fields_of(text)
             u.emit("impl %s {\n" % name)
         allf = [n for n, _ in fl]
-        u.fn(f, "impl OrderedStatement for %s" % name, "clear_order_by", props=P, rules=[r_retself, make_r_sub("R-inherent", r"^(\s*)pub fn", r"\1fn", flags=re.M, min_count=0)],
+        u.fn(f, "impl OrderedStatement for %s" % name, "clear_order_by", props=P + ["C08", "C01"], rules=[r_retself, make_r_sub("R-inherent", r"^(\s*)pub fn", r"\1fn", flags=re.M, min_count=0)],
              key="%s::clear_order_by" % name, vpath="%s::clear_order_by" % name,
              spec="ensures\n    // removes exactly that clause\n    final(self).%s@.len() == 0,\n    // and nothing else\n    %s," % (fld, ", ".join("final(self).%s == old(self).%s" % (n, n) for n in allf if n != fld)))
         u.emit("}\n")
